@@ -30,6 +30,7 @@ func modeCfg(r *rng) string {
 }
 
 var parseCorpus = []string{
+	"1.", "1.e3", "1.E-2", "1.e", "1.x", "1..x", "1 .x", "1.5.x", "0x1.x", "1.toString()", "x = 1.\ny", "1. + 2", "0.", "00.", "017.x", "1\n.x", "a = 1..toString()", "console.log(1.e3, 1 .e3)",
 	"01.5", "00.5", "01e2", "0.5", "0e1", "00", "010", "x = 03.0 + 1", "1.5e3", "09.1",
 	"a\n-= 1", "a\n+= 1", "a\n= 1", "a\n- 1", "a\n== b", "a\n&& b", "a\n* b", "a\n. b", "a\n, b", "a\n? b",
 	"", ";", "a", "a;b", "a b", "let", "let 1; x", "let x = ", "return\nx", "a\n++b", "foo()\n++\nbar()", "a - -b", "x = a + ++b",
